@@ -1052,8 +1052,20 @@ def _collect_rule(ctx, pkg):
     `getattr(c, kind)` of EVERY c in `components` -- as nested loops storing / updating, or as one expression (dict / OrderedDict
     over chained items, a dict comprehension, generator helpers of the module).  The two parameters are taken by POSITION."""
     from ..valueflow import Flow, subst
-    fn = pkg.func(UTIL, "_collect_variable_items")
-    ctx.saw(UTIL, "_collect_variable_items")
+    # the function by USE: whatever utilities function the renderer installs as the Jinja filter `collect_variable_items`
+    fname = "_collect_variable_items"
+    tl = pkg.modules.get("naunet/templateloader.py")
+    for st in ast.walk(tl) if tl is not None else ():
+        if isinstance(st, ast.Assign) and len(st.targets) == 1 and isinstance(st.targets[0], ast.Subscript) and isinstance(st.targets[0].slice, ast.Constant) \
+                and st.targets[0].slice.value == "collect_variable_items" and isinstance(st.targets[0].value, ast.Attribute) and st.targets[0].value.attr == "filters" \
+                and isinstance(st.value, ast.Name):
+            imported = {a.asname or a.name: a.name for im in tl.body if isinstance(im, ast.ImportFrom) and im.module == "utilities" and im.level == 1 for a in im.names}
+            if imported.get(st.value.id) and (UTIL, imported[st.value.id]) in pkg.functions:
+                fname = imported[st.value.id]
+            elif (UTIL, st.value.id) in pkg.functions and st.value.id not in {n.id for n in ast.walk(tl) if isinstance(n, ast.Name) and isinstance(n.ctx, ast.Store)}:
+                fname = st.value.id
+    fn = pkg.func(UTIL, fname)
+    ctx.saw(UTIL, fname)
     key, where = "_collect_variable_items:every component", (UTIL, fn.lineno)
     msg = "every item of every component's params/deriveds/constants is merged (keyed by symbol), unconditionally"
     ps = [a.arg for a in fn.args.args]
@@ -1332,6 +1344,10 @@ def _r11(ctx, pkg, regs, protos, consts, universal):
     a condition on an attribute that every ThermalProcess instance fixes to a falsifying constant."""
     tl = pkg.cls("TemplateLoader")
     root = tl.methods.get("_assign_rates")
+    if root is None:
+        # under another name, by role: the one method of the renderer that asks the reactions for their rate expressions
+        asking = [m for m in tl.methods.values() if any(isinstance(c, ast.Call) and isinstance(c.func, ast.Attribute) and c.func.attr == "rateexpr" for c in ast.walk(m))]
+        root = asking[0] if len(asking) == 1 else None
     if root is None:
         ctx.missing("R11", "_assign_rates", (TLOADER, 0), "TemplateLoader._assign_rates vanished")
         return
